@@ -25,6 +25,10 @@ CLAIMS = {
   text="Lean 4 theorems about the model of requirementlogic.go / applyRequirement / Match as written: for every requirement tree (all / pick count min max, nested), every descriptor list and every matching predicate, the descriptor subset the holder settles on satisfies the requirement logic and every descriptor in it has a matching credential (C20_holder_sound, via incrementUntilValid_sound / evalSol_sound over any iterator state and fuel), the repaired verifier accepts it (C20_agree), every (descriptor, credential) pair of the descriptor map matches (C20_only_matching), isLenApplicable means what the spec says (lenOK_iff). Tie: correspondence of the real CreateVP -> MarshalJSON -> ParsePresentation -> Match on generated definitions x credential sets with the compiled model (exact descriptor map and verifier result) plus a Lean oracle on the implementation's output (requirement satisfied, pairs match, verifier agrees, and 'no credentials' only when brute force over all descriptor subsets finds no solution)",
   note="trusted: Lean kernel; allowed axioms; gval/jsonpath + gojsonschema (constraint evaluation is the driver's credMatches for the generator's four filter kinds); iterator completeness is checked per case by brute force (search), not proved; limit_disclosure / SD-JWT / BBS+ credentials not generated",
   technique="Lean 4 soundness proof of the solution iterator + holder/verifier correspondence"),
+ "C18": dict(
+  text="Lean 4 theorems (flat claims, ideal salted hash): for every claim list, every SD selection and every sub-list of disclosures presented the verifier outputs exactly visible ++ chosen (C18_exact, premise discharged by issue_nodup), every output claim is visible or chosen (C18_output_subset), an uncommitted / altered / duplicated disclosure is rejected (C18_uncommitted_rejected, C18_altered_rejected, C18_duplicate_rejected). The general nested model (Model.lean: discloseClaimValue with _sd levels, recursive disclosures, array elements, cleanup, both verifier stages, holder binding) is tied to the code by correspondence: real issuer.New (v2/v5, structured, non-SD, recursive, always-include, decoys, 3 hash algs) -> holder -> verifier.Parse on generated claim trees x subsets x tampering x binding variants; the model predicts the verifier's outcome exactly, and a Lean oracle checks the output against the ORIGINAL claims restricted to visible + chosen (project) and that tampered / unverifiable presentations are rejected",
+  note="trusted: Lean kernel; allowed axioms; SHA-2 / Ed25519 ideal (digests replaced by disclosure indices by the harness); the nested model has no general exactness theorem yet (flat case proved); json.Number normalisation (C18-F3); open finding C18-F1 (empty arrays / nulls)",
+  technique="Lean 4 proof (flat) + executable nested model correspondence + claims-level oracle"),
 }
 
 def main():
